@@ -273,6 +273,27 @@ type State struct {
 	epoch int
 	cnt   string
 	ghost map[string]Val
+	// allocation base: a snapshot of this state taken before a run of writes that only touched objects
+	// allocated after the snapshot (anew). Pure/opaque applications whose reference arguments all exist
+	// in the snapshot have the same value in both states (the snapshot heap is closed under reachability).
+	abase *State
+	anew  map[string]bool
+}
+
+// touch: a write that may concern an object that existed before the allocation base
+func (s *State) touch() { s.abase = nil; s.anew = nil }
+
+// noteAlloc records a freshly allocated reference
+func (s *State) noteAlloc(r string) {
+	if s.abase == nil {
+		b := &State{heap: make(map[string]string, len(s.heap)), epoch: s.epoch, cnt: s.cnt, ghost: s.ghost}
+		for k, v := range s.heap {
+			b.heap[k] = v
+		}
+		s.abase = b
+		s.anew = map[string]bool{}
+	}
+	s.anew[r] = true
 }
 
 func (s *State) Clone() *State {
@@ -282,6 +303,13 @@ func (s *State) Clone() *State {
 	}
 	for k, v := range s.ghost {
 		n.ghost[k] = v
+	}
+	if s.abase != nil {
+		n.abase = s.abase
+		n.anew = make(map[string]bool, len(s.anew))
+		for k := range s.anew {
+			n.anew[k] = true
+		}
 	}
 	return n
 }
@@ -363,6 +391,17 @@ func (m *Model) heapSet(s *State, k HeapKey, term string) {
 	n := m.ctx.Fresh(k.Key, k.Sort)
 	m.ctx.Assume(Eq(n, term))
 	s.heap[k.Key] = n
+	s.touch()
+}
+
+// heapSetAt: like heapSet for a term of the form store(H, idx, ..): a write to object idx only
+func (m *Model) heapSetAt(s *State, k HeapKey, idx, term string) {
+	n := m.ctx.Fresh(k.Key, k.Sort)
+	m.ctx.Assume(Eq(n, term))
+	s.heap[k.Key] = n
+	if !s.anew[idx] {
+		s.touch()
+	}
 }
 
 type storeDef struct{ prev, idx, val string }
@@ -374,6 +413,9 @@ func (m *Model) heapStore(s *State, k HeapKey, idx, val string) {
 	n := m.ctx.Fresh(k.Key, k.Sort)
 	m.ctx.Assume(Eq(n, Store(prev, idx, val)))
 	s.heap[k.Key] = n
+	if !s.anew[idx] {
+		s.touch()
+	}
 	if m.defs == nil {
 		m.defs = map[string]storeDef{}
 	}
@@ -411,6 +453,7 @@ func (m *Model) Sel(h, idx string) string {
 func (m *Model) heapHavoc(s *State, k HeapKey) string {
 	n := m.ctx.Fresh(k.Key, k.Sort)
 	s.heap[k.Key] = n
+	s.touch()
 	return n
 }
 
@@ -530,6 +573,24 @@ func (m *Model) mergeStates(conds []string, sts []*State) *State {
 		id := fmt.Sprintf("LAZY:%d", len(m.lazies))
 		m.lazies[id] = &lazyMerge{conds: append([]string(nil), conds...), terms: terms, sort: srt, key: k}
 		out.heap[k] = id
+	}
+	// allocation base survives a merge only if all incoming states share it
+	if sts[0].abase != nil {
+		same := true
+		for _, s := range sts[1:] {
+			if s.abase != sts[0].abase {
+				same = false
+			}
+		}
+		if same {
+			out.abase = sts[0].abase
+			out.anew = map[string]bool{}
+			for _, s := range sts {
+				for k := range s.anew {
+					out.anew[k] = true
+				}
+			}
+		}
 	}
 	// cnt
 	acc := sts[len(sts)-1].cnt
